@@ -37,6 +37,9 @@ impl VMap {
             old(self)@.dom().contains(key@) ==> final(self)@ == old(self)@ && *r == old(self)@[key@],
             !old(self)@.dom().contains(key@) ==> final(self)@ == old(self)@.insert(key@, v) && *r == v,
     { unimplemented!() }
+    /// HashMap::new / Default: empty
+    #[verifier::external_body]
+    pub fn new() -> (r: VMap) ensures r@ == Map::<Seq<char>, u32>::empty() { unimplemented!() }
     // plausible foreign calls: accepted, nothing promised
     #[verifier::external_body]
     pub fn contains_key(&self, key: &str) -> bool { unimplemented!() }
@@ -434,6 +437,115 @@ pub open spec fn id_given(before: IdMap, after: IdMap, name: Seq<char>, id: u32)
         [[L: no_zoom/processor_sends_into_the_channel_the_writer_task_reads]]
         r matches Ok(p) ==> data_ends(final(send).sent().last().0, final(send).sent().last().1, final(send).sent().last().2, p.made_from().0, options.inmemory),
 //@end
+
+// -------------------------------------------------------------------------------------
+// C01/C02 over ANY sequence of chromosome names: the driver below feeds names to the extracted `do_read` of
+// write_vals the way `process_to_bbi` does (one call per chromosome run, stop at the first refusal), starting from
+// the empty id map (`IdMap::default()`: derive(Default) = empty map, next_id 0 -- ASSUMED, modelled by the literal
+// below).  Nothing is re-implemented; Verus checks the loop against do_read's contract for all name sequences.
+// -------------------------------------------------------------------------------------
+/// the distinct members of s in order of first appearance
+pub open spec fn first_app(s: Seq<Seq<char>>) -> Seq<Seq<char>>
+    decreases s.len()
+{
+    if s.len() == 0 { Seq::empty() } else {
+        let p = first_app(s.drop_last());
+        if p.contains(s.last()) { p } else { p.push(s.last()) }
+    }
+}
+pub open spec fn names_of(v: Seq<String>) -> Seq<Seq<char>> { Seq::new(v.len(), |k: int| v[k]@) }
+/// first_app(s) has exactly the members of s, each once
+pub proof fn lemma_first_app(s: Seq<Seq<char>>)
+    ensures
+        forall|x: Seq<char>| #![trigger first_app(s).contains(x)] first_app(s).contains(x) <==> s.contains(x),
+        forall|a: int, b: int| 0 <= a < b < first_app(s).len() ==> first_app(s)[a] != first_app(s)[b],
+    decreases s.len()
+{
+    if s.len() > 0 {
+        let d = s.drop_last();
+        let p = first_app(d);
+        lemma_first_app(d);
+        assert forall|x: Seq<char>| #![trigger first_app(s).contains(x)] first_app(s).contains(x) <==> s.contains(x) by {
+            if s.contains(x) {
+                let j = choose|j: int| 0 <= j < s.len() && s[j] == x;
+                if j < s.len() - 1 { assert(d[j] == x); assert(d.contains(x)); assert(p.contains(x)); }
+                if !p.contains(s.last()) { assert(p.push(s.last())[p.len() as int] == s.last()); }
+                if p.contains(x) { let a = choose|a: int| 0 <= a < p.len() && p[a] == x; assert(p.push(s.last())[a] == x); }
+            }
+            if first_app(s).contains(x) {
+                let a = choose|a: int| 0 <= a < first_app(s).len() && first_app(s)[a] == x;
+                if a < p.len() { assert(p[a] == x); assert(p.contains(x)); assert(d.contains(x)); let j = choose|j: int| 0 <= j < d.len() && d[j] == x; assert(s[j] == x); }
+                else { assert(x == s.last()); assert(s[s.len() - 1] == x); }
+            }
+        }
+        assert forall|a: int, b: int| 0 <= a < b < first_app(s).len() implies first_app(s)[a] != first_app(s)[b] by {
+            if b == p.len() { assert(p[a] == first_app(s)[a]); assert(p.contains(p[a])); }
+        }
+    }
+}
+fn driver_chromosome_table(names: &Vec<String>, chrom_sizes: &VMap, send: &mut ChromTx<Data>, options: &BBIWriteOptions, runtime: &Runtime, zoom_sizes: &Vec<u32>)
+    -> (r: (IdMap, usize, Ghost<Seq<u32>>))
+    requires
+        names@.len() < u32::MAX,
+    ensures
+        [[L: table/stops_at_the_first_chromosome_without_a_supplied_size]]
+        r.1 <= names@.len(),
+        forall|k: int| 0 <= k < r.1 ==> chrom_sizes@.dom().contains(#[trigger] names@[k]@),
+        r.1 < names@.len() ==> !chrom_sizes@.dom().contains(names@[r.1 as int]@),
+        [[L: table/lists_exactly_the_accepted_chromosomes_in_first_appearance_order]]
+        r.0.wf(),
+        r.0.order@ == first_app(names_of(names@.subrange(0, r.1 as int))),
+        [[L: table/every_processor_got_the_id_of_its_name_and_the_supplied_size]]
+        r.2@.len() == r.1,
+        forall|k: int| 0 <= k < r.1 ==> 0 <= (#[trigger] r.2@[k]) < r.0.order@.len() && r.0.order@[r.2@[k] as int] == names@[k]@,
+        [[L: table/one_message_per_accepted_chromosome_run]]
+        final(send).sent().len() == old(send).sent().len() + r.1,
+{
+    let mut ids = IdMap { map: VMap::new(), next_id: 0, order: Ghost(Seq::empty()) };
+    let mut k: usize = 0;
+    let ghost mut given: Seq<u32> = Seq::empty();
+    let ghost sent0 = send.sent();
+    assert(names_of(names@.subrange(0, 0)) =~= Seq::<Seq<char>>::empty());
+    while k < names.len()
+        invariant
+            k <= names@.len(), names@.len() < u32::MAX,
+            ids.wf(), ids.next_id <= k,
+            forall|j: int| 0 <= j < k ==> chrom_sizes@.dom().contains(#[trigger] names@[j]@),
+            ids.order@ == first_app(names_of(names@.subrange(0, k as int))),
+            given.len() == k,
+            forall|j: int| 0 <= j < k ==> 0 <= (#[trigger] given[j]) < ids.order@.len() && ids.order@[given[j] as int] == names@[j]@,
+            send.sent().len() == sent0.len() + k, sent0 == old(send).sent(),
+        decreases
+            [[L: table/termination]]
+            names@.len() - k,
+    {
+        let ghost before = ids;
+        let name = names[k].as_str().to_string();
+        let res = do_read_write_vals(name, chrom_sizes, &mut ids, send, options, runtime, zoom_sizes);
+        proof {
+            let pre = names_of(names@.subrange(0, k as int));
+            let nxt = names_of(names@.subrange(0, k as int + 1));
+            assert(nxt.drop_last() =~= pre);
+            assert(nxt.last() == names@[k as int]@);
+        }
+        match res {
+            Err(_) => { return (ids, k, Ghost(given)); }
+            Ok(p) => {
+                proof {
+                    let id = p.made_from().2;
+                    assert(before.knows(names@[k as int]@) <==> before.order@.contains(names@[k as int]@));
+                    assert forall|j: int| 0 <= j < k implies 0 <= (#[trigger] given[j]) < ids.order@.len() && ids.order@[given[j] as int] == names@[j]@ by {
+                        assert(before.order@[given[j] as int] == ids.order@[given[j] as int]);
+                    }
+                    given = given.push(id);
+                }
+            }
+        }
+        k = k + 1;
+    }
+    proof { assert(names@.subrange(0, k as int) =~= names@); }
+    (ids, k, Ghost(given))
+}
 
 // Second pass (write_zoom_vals): the id is LOOKED UP in the map the first pass produced, never created.
 // A chromosome without an id makes `.expect("Should not have seen a new chrom.")` PANIC (not an Err): it is the
